@@ -505,8 +505,56 @@ def V2(ctx, subset=None):
     return n
 
 
+OP_ACTION = {
+    # operation -> (branching call, expected action variant) : written from the semantics of each operation
+    "rt::atomic::Atomic::<T>::load": "Load", "rt::atomic::Atomic::<T>::store": "Store", "rt::atomic::Atomic::<T>::rmw": "Rmw",
+    "rt::arc::Arc::ref_inc": "RefInc", "rt::arc::Arc::ref_dec": "RefDec", "rt::arc::Arc::get_mut": "RefDec",
+    "rt::arc::Arc::strong_count": "Inspect",
+    "rt::mpsc::Channel::send": "MsgSend", "rt::mpsc::Channel::recv": "MsgRecv",
+    "rt::rwlock::RwLock::acquire_read_lock": "Read", "rt::rwlock::RwLock::try_acquire_read_lock": "Read",
+    "rt::rwlock::RwLock::acquire_write_lock": "Write", "rt::rwlock::RwLock::try_acquire_write_lock": "Write",
+}
+
+
+def V3(ctx, subset=None):
+    """Each operation registers itself at its branch point under the action kind of its semantics (the dependence tables are
+    indexed by it): e.g. Arc::get_mut answers "am I the only handle", so it must conflict with drops like a RefDec."""
+    prog = ctx.prog
+    n = 0
+    for fk, want in OP_ACTION.items():
+        if subset and not any(fk.startswith(s) for s in subset):
+            continue
+        fn = need_fn(ctx, "V3", fk)
+        if fn is None:
+            continue
+        inst = prog.ident(fk)
+        acts = []
+        for (b, t, c) in prog.sites(inst):
+            k = prog.callee_key(c)
+            if k in ("rt::object::Ref::<T>::branch_action", "rt::object::Ref::<T>::branch_disable", "rt::atomic::Atomic::<T>::branch", "rt::arc::Arc::branch"):
+                e = strip(arg_expr(fn.body, t, 1))
+                if e[0] == "agg":
+                    acts.append((b, e[2]))
+                elif e[0] == "const" and "variant" in e[1]:
+                    acts.append((b, e[1]["variant"]))
+                else:
+                    acts.append((b, canon(e)))
+        n += 1
+        if len(acts) == 1 and acts[0][1] == want:
+            ctx.ok("V3", fk, "branches as %s" % want, [site_str(prog, fk, acts[0][0])])
+        else:
+            ctx.bad("V3", fk, "%s registers its branch point as %s, its semantics require `%s` (dependence with the operations it races "
+                    "with is looked up under this kind)" % (fk, [a for _, a in acts], want), fn.loc())
+    if not subset:
+        ctx.floor("V3", n, 13, "operations with a typed action")
+    return n
+
+
 def run_all(ctx, which):
     for w in which:
+        if w == "V3":
+            V3(ctx)
+            continue
         if w == "T1":
             ctx.floor("T1", T1(ctx), 8, "dependent pairs over 7 kinds")
         elif w == "T2":
